@@ -115,6 +115,29 @@ def gen_base(rng: Any, max_ops: int = 28) -> List[str]:
             body.append(rng.choice(['cclose c', 'cclose s', 'cabort c', 'cabort s']))
         elif r < 0.83:
             body.append(f'lose {rng.choice("cs")} {rng.randrange(2)}')
+        elif r < 0.89:
+            # the peer finishes behind a paused reader that still holds undelivered data; the reader then gives up
+            # (abort / close) or resumes: one threat, played to the end
+            side = rng.choice('cs')
+            other = 's' if side == 'c' else 'c'
+            i = rng.randrange(max(1, nopen))
+            body.append(f'op {side} {i} pause')
+            k = rng.choice([1, 1, 1, 2, 3])     # few enough to fit the window: the peer's CLOSE must get out
+            for _ in range(k):
+                body.append(f'op {other} {i} write')
+            for _ in range(k + 1):
+                body.extend(SYNC)
+            fin = rng.choice(['close', 'close', 'eof', 'exit'])
+            if fin == 'exit' and other == 'c':
+                fin = 'close'
+            body.append(f'op {other} {i} {fin}')
+            if fin != 'close' and rng.random() < 0.6:
+                body.append(f'op {other} {i} close')
+            body.extend(SYNC + SYNC + SYNC)
+            body.append(f'op {side} {i} ' + rng.choice(['abort', 'abort', 'close', 'resume']))
+            body.extend(rng.choice([SYNC, SYNC + SYNC]))
+            if rng.random() < 0.5:
+                body.append(f'wc {side} {i}')
         progress()
     return lines + body
 
